@@ -14,6 +14,7 @@ P = "C03"
 
 
 class C03World(E2EWorld):
+    prop = P
     name = "E2E-K"
     link_default = "k"
 
